@@ -231,6 +231,22 @@ def run(ctx):
         ctx.unknown('R20f', repo.mod('pylatexenc._util'), None, 'no construction of LineNumbersCalculator found',
                     construct='LineNumbersCalculator constructions')
 
+    # ---- R20g: the position reported is the error's own
+    ctx.rule('R20g', 'in the error classes no loop variable re-binds a name that holds the error\'s own position / line / '
+                     'column and is read again after the loop (grules.loop_shadowing)', 0)
+    from .. import grules as _gr
+    exm_ = repo.mod('pylatexenc.latexnodes._exctypes')
+    n_sh = 0
+    for q_, f_ in sorted(exm_.functions.items()):
+        for rd_, name_, lp_ in _gr.loop_shadowing(f_):
+            n_sh += 1
+            ctx.refuted('R20g', exm_, rd_, '%s: the loop at line %d re-binds %s, which held a value computed before the loop, '
+                        'and %s is read again after the loop: the message reports the line and column of the last open '
+                        'block instead of the error\'s own' % (q_, lp_.lineno, name_, name_),
+                        construct='%s: %s shadowed by a loop target' % (q_, name_))
+    ctx.holds('R20g', exm_, None, 'no loop target shadows a value read after the loop in the error classes',
+              construct='loop shadowing scan', trivial=True)
+
     return 'other', _expl()
 
 
